@@ -1,4 +1,5 @@
 import JwtProofs.Revocation
+import Props.FnTie
 /-!
 # C09 — revocation answers follow the revoke / clear / compact history
 
